@@ -94,6 +94,11 @@ func (r *Report) Finish() int {
 		if r.Classify != nil && (o.Status == "died" || o.Status == "budget" || o.Status == "blocked") {
 			r.Classify(o)
 		}
+		if o.Status == "budget" && r.Prop != "C13" {
+			// outside C13 the CPU budget is only a safety net: a very slow case is not a verdict
+			o.Detail = "(case exceeded the safety budget of CPU time) " + o.Detail
+			o.Status = "inconclusive"
+		}
 		if o.Status == "blocked" {
 			o.Detail = "(blocked) " + o.Detail
 			o.Status = "inconclusive"
